@@ -266,6 +266,26 @@ CHECKS["C12"] = {
     "assumptions": ["toolchain go1.26.8 (newer than the repository's 1.23.5) is used to get testing/synctest"],
 }
 
+CHECKS["C19"] = {
+    "title": "pooled connection: one owner, closed once",
+    "go": GO126,
+    "crash_is_violation": True,
+    "generate": [
+        {"cmd": INSTR + ["{repo}/internal/smtpconn/pool/pool.go", "{out}"], "out": "pool_instr.go", "replaces": "internal/smtpconn/pool/pool.go"},
+    ],
+    "units": [
+        {"name": "pool", "pkg": "internal/smtpconn/pool", "overlay": {"verif_c19_test.go": "harness/C19/pool_test.go"}},
+    ],
+    "quick": {"n": 48, "shards": 16},
+    "thorough": {"n": 1600, "shards": 16},
+    "min_nontrivial": 50,
+    "level_text": "systematic, delay-bounded schedule exploration of the real pool.go (synchronisation points handed to a harness-owned scheduler by an AST rewriter) on a virtual clock; "
+                  "scenarios sampled by rapid, schedules with at most two deviations enumerated up to a cap; invariants over instrumented connection objects.",
+    "level_note": "pre-emption only at synchronisation operations; more than two deviations and plain data races are not covered; built with go1.26.8",
+    "technique": "property-based scenario generation (rapid) + delay-bounded (d<=2) schedule enumeration with an owned scheduler and virtual clock",
+    "assumptions": ["toolchain go1.26.8 (newer than the repository's 1.23.5) is used to get testing/synctest"],
+}
+
 # properties deliberately not claimed: {"property_id":..., "reason":...}
 NOT_APPLICABLE = []
 
